@@ -83,14 +83,17 @@ def make_values(rng, profile, n, le, re_):
     return vals
 
 
-def build_log_pass(rng, names, profiles, scales, n, up):
-    chans = [dict(mnem=b'DEPT', units=b'FEET', size=4, samples=1, rc=68, nvals=1)]
+XUNITS = {b'FEET': 1.0, b'.1IN': 120.0, b'M   ': 0.3048}        # frame-unit values per foot
+
+
+def build_log_pass(rng, names, profiles, scales, n, up, xunits=b'FEET'):
+    chans = [dict(mnem=b'DEPT', units=xunits, size=4, samples=1, rc=68, nvals=1)]
     for nm in names:
         chans.append(dict(mnem=nm, units=b'MV  ', size=4, samples=1, rc=68, nvals=1))
     blocks = {4: (1, 66, 1 if up else 255), 12: (4, 68, -999.25)}
     lrs = [GLL.file_head(), GLL.dfsr(blocks, chans)]
-    x0 = 1000.0
-    dx = -0.5 if up else 0.5
+    x0 = {b'FEET': 1000.0, b'.1IN': 120000.0, b'M   ': 304.75}[xunits]          # about 1000 ft, exact in code 68
+    dx = (-1 if up else 1) * {b'FEET': 0.5, b'.1IN': 60.0, b'M   ': 0.125}[xunits]
     cols = []
     for nm, prof, (le, re_) in zip(names, profiles, scales):
         vals = make_values(rng, prof['kind'], n, le, re_)
@@ -385,7 +388,10 @@ def run(ctx):
             film_id = uid
         profs = [dict(kind=rng.choice(profiles), absent=rng.random() < 0.5) for _ in outs]
         case['profiles'] = [(p['kind'], p['absent']) for p in profs]
-        data, xs, cols = build_log_pass(rng, outs, profs, scales, n, up)
+        # the frames' X units and the units the plot range is asked in are independent
+        xunits, runits = rng.choice([(b'FEET', b'FEET'), (b'FEET', b'FEET'), (b'.1IN', b'FEET'), (b'FEET', b'.1IN'), (b'.1IN', b'.1IN'), (b'M   ', b'M   ')])
+        case.update(xunits=xunits.decode(), range_units=runits.decode())
+        data, xs, cols = build_log_pass(rng, outs, profs, scales, n, up, xunits)
         f = File.FileRead(io.BytesIO(data), 'lp', keepGoing=False)
         idx = FileIndexer.FileIndex(f)
         lp = list(idx.genLogPasses())[0].logPass
@@ -393,7 +399,8 @@ def run(ctx):
         ctx.case(('plot', pi), any(p['kind'] != 'inside' for p in profs))
         with plottrace.record_plot() as events:
             try:
-                plotter.plotLogPassLIS(f, lp, EngVal.EngVal(xs[0], b'FEET'), EngVal.EngVal(xs[-1], b'FEET'), film_id, fp, frameStep=1, title='verif')
+                k_ = XUNITS[runits] / XUNITS[xunits]
+                plotter.plotLogPassLIS(f, lp, EngVal.EngVal(xs[0] * k_, runits), EngVal.EngVal(xs[-1] * k_, runits), film_id, fp, frameStep=1, title='verif')
             except Exception as e:
                 import traceback
                 tb = traceback.extract_tb(e.__traceback__)[-1]
@@ -441,7 +448,7 @@ def run(ctx):
             dict(meta=m, event=ev, l=l, before=traces[t][max(0, l - 4):l - 1]), sig=dict(kind='trace', op=ev and ev.get('op'), drawn_across_gap=gapped))
     ctx.rule = ('lattice: one case per (track, scale, value); plots: one case per generated plot (non-trivial: some output not entirely inside its '
                 'scale); one trace per plotted curve')
-    ctx.assumptions += ['LIS input with single-sample channels in code 68, X in FEET; positions quantised to 1e-4 in (tolerance 8 units), x to 0.01 ft',
+    ctx.assumptions += ['LIS input with single-sample channels in code 68, X in FEET, .1IN or M with the plot range asked in the same or another unit; positions quantised to 1e-4 in (tolerance 8 units), x to 0.01 ft',
                         'logarithmic scale positions computed in double precision by the harness (tolerance 1e-7 widths)',
                         'scale edges and values exactly representable in code 68']
     ctx.explanation = ('TLC checks the wrap arithmetic and the polyline machine; the real transforms are replayed on the lattice and at extremes; '
